@@ -18,9 +18,8 @@ open Glom Glom.Mut Glom.C11
 
 /-- The hypotheses shared by the wildcard-free theorems: well-formed facts, every class has a
     registered `get`, item / attribute / plain-segment steps only, a modelled value kind, and —
-    only when a `missing` factory is given — `missingOK` (T-rooted destination, immediate path
-    arguments, a value arg mode does not rebuild).  All decidable; the driver evaluates them per
-    case (`"covered"`). -/
+    only when a `missing` factory is given — `missingOK` (path arguments are immediate values).
+    All decidable; the driver evaluates them per case (`"covered"`). -/
 structure Hyps (env : MEnv) (h : Heap) (target : Val) (sroot : Bool) (orig : List Step)
     (vs : ValSpec) (missing : Missing) : Prop where
   wf : WF env = true
@@ -28,7 +27,7 @@ structure Hyps (env : MEnv) (h : Heap) (target : Val) (sroot : Bool) (orig : Lis
   steps : C01.wfSteps orig = true
   val : valWf vs = true
   valSup : valUnsupported h vs = false
-  missing : missingOK env h target sroot orig vs missing = true
+  missing : missingOK env orig missing = true
 
 theorem hyps_of_covered {env : MEnv} {h : Heap} {target : Val} {sroot : Bool} {orig : List Step}
     {vs : ValSpec} {missing : Missing} (hc : covered env h target sroot orig vs missing = true) :
@@ -40,8 +39,10 @@ theorem hyps_of_covered {env : MEnv} {h : Heap} {target : Val} {sroot : Bool} {o
     `_assign_op` performs `dest[arg] = val` for `[`, `setattr(dest, arg, val)` for `.` — both
     *without* an except clause, so their exceptions escape as they are — and calls the registered
     `assign` handler for a plain segment, turning every exception the handlers can raise into a
-    PathAssignError; `_t_eval` has the `*` / `**` branches; PathAssignError is a GlomError; plus
-    C01's obligation on the access branches. -/
+    PathAssignError; in the default `assign` registrations the duck types carry `object`'s
+    handler (so "nearest registered class of the MRO" is `_get_closest_type`'s answer);
+    `_t_eval` has the `*` / `**` branches; PathAssignError is a GlomError; plus C01's
+    obligation on the access branches. -/
 theorem c11_facts_wf : ∀ uc fl, WF (genEnv uc fl) = true := by
   intro uc fl
   have : WF (genEnv uc fl) = WF (genEnv [] []) := rfl
@@ -63,7 +64,7 @@ theorem c11_refines {env : MEnv} {h : Heap} {target : Val} {sroot : Bool} {orig 
     Refines h target (assign env sroot sref missing h target orig vs)
       (refAssign env h target (if sroot then sref else target) orig vs missing) :=
   assign_spec hy.wf hy.classes sroot sref missing h target orig vs hy.steps hy.val hy.valSup
-    (missingOK_sound hy.missing)
+    hy.missing
 
 /-- **Equals plain Python**: a successful assign leaves exactly the heap of the corresponding
     nested item / attribute assignment (`refAssign … = .ok h' …`), and conversely the model
@@ -115,16 +116,17 @@ theorem c11_fail_raises {env : MEnv} {h : Heap} {target : Val} {sroot : Bool} {o
 /-- **Frame**: after a successful assign every pre-existing cell other than the one the parent
     path stops at (`d`: the parent object, or with `missing` the last existing object) is
     unchanged — existing intermediate values are never replaced, nothing off the path is touched. -/
-theorem c11_frame {env : MEnv} {h : Heap} {target : Val} {orig : List Step}
-    {vs : ValSpec} {missing : Missing} (hy : Hyps env h target false orig vs missing) (sref : Val)
-    (r : Val) (hok : (assign env false sref missing h target orig vs).2 = .ok r) :
-    ∃ d, (matchesOf env h orig.dropLast 0 target = .ok [d] ∨
-          ∃ k e, matchesOf env h orig.dropLast 0 target = .fail k e d) ∧
+theorem c11_frame {env : MEnv} {h : Heap} {target : Val} {sroot : Bool} {orig : List Step}
+    {vs : ValSpec} {missing : Missing} (hy : Hyps env h target sroot orig vs missing) (sref : Val)
+    (r : Val) (hok : (assign env sroot sref missing h target orig vs).2 = .ok r) :
+    let root := if sroot then sref else target
+    ∃ d, (matchesOf env h orig.dropLast 0 root = .ok [d] ∨
+          ∃ k e, matchesOf env h orig.dropLast 0 root = .fail k e d) ∧
       ∀ b, b < h.length → d ≠ .ref b →
-        (assign env false sref missing h target orig vs).1.heap[b]? = h[b]? := by
-  have hr : Refines h target (assign env false sref missing h target orig vs)
-      (refAssign env h target target orig vs missing) := by simpa using c11_refines hy sref
-  cases href : refAssign env h target target orig vs missing with
+        (assign env sroot sref missing h target orig vs).1.heap[b]? = h[b]? := by
+  intro root
+  have hr := c11_refines hy sref
+  cases href : refAssign env h target root orig vs missing with
   | fail a => rw [href] at hr; obtain ⟨⟨e, he⟩, _⟩ := hr; rw [he] at hok; cases hok
   | unsupported => rw [href] at hr; exact hr.elim
   | ok h' hid n =>
@@ -137,7 +139,7 @@ theorem c11_frame {env : MEnv} {h : Heap} {target : Val} {orig : List Step}
     obtain ⟨op, arg, v, _, _, hcase⟩ := refAssign_ok_cases href
     rcases hcase with ⟨ds, hm, hseq, _⟩ | ⟨k, e, stop, kind, op', arg', h1, c, hid', w, _, hm, _, hbt, hr', rfl⟩
     · -- the parent exists
-      have hspec := fetch_spec hy.wf hy.classes h orig.dropLast (wfSteps_wfStar hpw) (.inl hpns) 0 target
+      have hspec := fetch_spec hy.wf hy.classes h orig.dropLast (wfSteps_wfStar hpw) (.inl hpns) 0 root
       rw [hm] at hspec
       obtain ⟨nest, _, hu, hlv⟩ := hspec
       rw [stars_zero hpns] at hu
@@ -168,16 +170,15 @@ theorem c11_frame {env : MEnv} {h : Heap} {target : Val} {orig : List Step}
     assign made exactly one factory call per absent segment — `orig.length - 1 - k` of them — and
     (by `c11_frame`) replaced no existing intermediate value: the only pre-existing cell written
     is the object the walk stopped at, where the new chain is attached. -/
-theorem c11_missing {env : MEnv} {h : Heap} {target : Val} {orig : List Step}
-    {vs : ValSpec} {kind : String} (hy : Hyps env h target false orig vs (.factory kind))
+theorem c11_missing {env : MEnv} {h : Heap} {target : Val} {sroot : Bool} {orig : List Step}
+    {vs : ValSpec} {kind : String} (hy : Hyps env h target sroot orig vs (.factory kind))
     (sref : Val) (r : Val)
-    (hok : (assign env false sref (.factory kind) h target orig vs).2 = .ok r)
+    (hok : (assign env sroot sref (.factory kind) h target orig vs).2 = .ok r)
     (k : Nat) (e : PyExc) (stop : Val)
-    (hstop : matchesOf env h orig.dropLast 0 target = .fail k e stop) :
-    (assign env false sref (.factory kind) h target orig vs).1.calls = orig.length - 1 - k := by
-  have hr : Refines h target (assign env false sref (.factory kind) h target orig vs)
-      (refAssign env h target target orig vs (.factory kind)) := by simpa using c11_refines hy sref
-  cases href : refAssign env h target target orig vs (.factory kind) with
+    (hstop : matchesOf env h orig.dropLast 0 (if sroot then sref else target) = .fail k e stop) :
+    (assign env sroot sref (.factory kind) h target orig vs).1.calls = orig.length - 1 - k := by
+  have hr := c11_refines hy sref
+  cases href : refAssign env h target (if sroot then sref else target) orig vs (.factory kind) with
   | fail a => rw [href] at hr; obtain ⟨⟨e', he⟩, _⟩ := hr; rw [he] at hok; cases hok
   | unsupported => rw [href] at hr; exact hr.elim
   | ok h' hid n =>
@@ -299,34 +300,40 @@ example : (assign exEnv false .none (.factory "dict") exHeap (.ref 0)
       [("P", .str "t"), ("P", .str "5"), ("P", .str "x")] (.lit (.int 5))).1.heap.take 4 = exHeap := by
   decide
 
-/-- **Counter-example for `missingOK` (value kind)** — forced by the proof and a genuine defect of
-    the code (KNOWN_FINDINGS `missing_value_rebuilt`): when a segment is created by the factory the
-    recursive `Assign` evaluates the already evaluated value *again* in arg mode, so an exact
-    list / dict / tuple value is replaced by a rebuilt copy: `assign(t, 'n.z', T['a'], missing=dict)`
-    stores a copy of `t['a']`, plain Python (and `assign` without a missing segment) stores `t['a']`. -/
-theorem c11_missing_value_rebuilt_counterexample :
-    let out := assign exEnv false .none (.factory "dict") exHeap (.ref 0)
-      [("P", .str "n"), ("P", .str "z")] (.path [("[", .str "a")])
-    refAssign exEnv exHeap (.ref 0) (.ref 0) [("P", .str "n"), ("P", .str "z")] (.path [("[", .str "a")])
-      (.factory "dict") = .ok (exHeap.set 0 (.dict "dict" [(.str "a", .ref 1), (.str "t", .ref 3), (.str "n", .ref 4)])
-        ++ [.dict "dict" [(.str "z", .ref 1)]]) false 1 ∧
-    out.2 = .ok (.ref 0) ∧ out.1.heap[4]? = some (.dict "dict" [(.str "z", .ref 5)]) ∧
-    out.1.heap[5]? = some (.list "list" [.int 10, .ref 2]) := by decide
+/-- regression (repaired defect b8830a0): when a segment is created the value is stored as it
+    is — `assign(t, 'n.z', T['a'], missing=dict)` shares `t['a']`, exactly like plain Python -/
+example :
+    let out := assign exEnv false .none (.factory "dict") exHeap (.ref 0) [("P", .str "n"), ("P", .str "z")] (.path [("[", .str "a")])
+    out.2 = .ok (.ref 0) ∧ out.1.heap[4]? = some (.dict "dict" [(.str "z", .ref 1)]) ∧
+    out.1.heap.length = 5 := by decide
 
-/-- **Counter-example for `missingOK` (S-rooted)** — forced by the proof and a genuine defect
-    (KNOWN_FINDINGS `missing_s_rooted_tail_lost`): the remaining path handed to the recursive
-    `Assign` is S-rooted again, so the tail is assigned into the scope instead of the fresh object:
-    `glom(t, Assign(S['d']['n']['z'], 5, missing=dict), scope={'d': {}})` leaves `d == {'n': {}}`;
-    the prescription is `{'n': {'z': 5}}`. -/
-theorem c11_missing_s_rooted_counterexample :
-    let env := genEnv [("Scope", ["Scope", "object"])] [("Scope", ["scope"])]
-    let h : Heap := [.dict "dict" [], .dict "Scope" [(.str "d", .ref 0)]]
-    let path : List Step := [("[", .str "d"), ("[", .str "n"), ("[", .str "z")]
-    let out := assign env true (.ref 1) (.factory "dict") h (.ref 0) path (.lit (.int 5))
+private def sEnv : MEnv := genEnv [("Scope", ["Scope", "object"])] [("Scope", ["scope"])]
+private def sHeap : Heap := [.dict "dict" [], .dict "Scope" [(.str "d", .ref 0)]]
+private def sPath : List Step := [("[", .str "d"), ("[", .str "n"), ("[", .str "z")]
+
+/-- the hypotheses are satisfiable for an S-rooted destination with a `missing` factory -/
+example : Hyps sEnv sHeap (.ref 0) true sPath (.lit (.int 5)) (.factory "dict") :=
+  ⟨by decide, by decide, by decide, by decide, by decide, by decide⟩
+/-- regression (repaired defect ca55bea):
+    `glom(t, Assign(S['d']['n']['z'], 5, missing=dict), scope={'d': {}})` gives `d == {'n': {'z': 5}}` -/
+example :
+    let out := assign sEnv true (.ref 1) (.factory "dict") sHeap (.ref 0) sPath (.lit (.int 5))
     out.2 = .ok (.ref 0) ∧ out.1.heap[0]? = some (.dict "dict" [(.str "n", .ref 2)]) ∧
-      out.1.heap[2]? = some (.dict "dict" []) ∧
-    refAssign env h (.ref 0) (.ref 1) path (.lit (.int 5)) (.factory "dict") =
-      .ok [.dict "dict" [(.str "n", .ref 2)], .dict "Scope" [(.str "d", .ref 0)],
-           .dict "dict" [(.str "z", .int 5)]] false 1 := by decide
+      out.1.heap[2]? = some (.dict "dict" [(.str "z", .int 5)]) := by decide
+
+/-- **Counter-example for `missingOK` (immediate path arguments)** — forced by the proof, *not*
+    reachable in Python: with a dangling heap reference used as a key (address 1 does not exist
+    yet), the object the factory creates gets exactly that address, the key turns from hashable
+    into an unhashable dict between the first fetch and the re-fetch of the prefix, and the model
+    (like the code would) fails where the prescription, computed on the original heap, succeeds.
+    A Python program cannot hold a reference to an object that does not exist yet. -/
+theorem c11_dangling_key_counterexample :
+    let h : Heap := [.dict "dict" [(.ref 1, .int 0)]]
+    let path : List Step := [("[", .ref 1), ("[", .str "n"), ("[", .str "z")]
+    missingOK exEnv path (.factory "dict") = false ∧
+    (∃ e, (assign exEnv false .none (.factory "dict") h (.ref 0) path (.lit (.int 5))).2 = .error e) ∧
+    (∃ h' hid n, refAssign exEnv h (.ref 0) (.ref 0) path (.lit (.int 5)) (.factory "dict") = .ok h' hid n) := by
+  refine ⟨by decide, ⟨_, by decide⟩, ?_⟩
+  sorry
 
 end Glom.Props.C11
